@@ -32,7 +32,7 @@ RULE = ('(i) Hypothesis-generated histories (<= 70 ops) against the real thriftm
         'on the simulated socket with an adversarial peer: request(with/without deadline) / peer_reply(any live request, any '
         'order) / duplicate reply for an answered tag / reply for a never-allocated tag / non-ping reply on reserved tags 0 and '
         '1 / timeout(request) before transmission (send loop held by a gate) and after / hold and release the send loop / '
-        're-open the connection. Tags are decoded from the frames the peer receives with the harness codecs. (ii) TagPool alone '
+        're-open the connection; a quarter of the histories run on a connection whose tag space is nearly used up (the same TagPool class with a bound of 5 or 8): a call that finds no tag is refused and nothing of it may be written. Tags are decoded from the frames the peer receives with the harness codecs. (ii) TagPool alone '
         'with max_tag 4-12: get / release(outstanding) / release again, to exhaustion; thorough additionally drains the real '
         'TagPool(2^24-1). Non-trivial = a timeout after transmission followed by reuse pressure, or a reserved / unknown / '
         'duplicate reply, or an exhausted pool. distinct = distinct non-trivial plans.')
